@@ -276,12 +276,12 @@ TO = "(target_overhead if target_overhead is not None else self.target_overhead)
 TN = "(target_slices if target_slices is not None else self.target_slices)"
 best = Contract(
     target="cotengra.slicer:SliceFinder.best",
-    variant="single",
     props=["C07"],
     self_type=FinderT,
     params={"k": Ty.NoneT, "target_size": Ty.Opt(Ty.Int), "target_overhead": Ty.Opt(Ty.Real), "target_slices": Ty.Opt(Ty.Int)},
     returns=ItemT,
     externals={"SliceFinder._maybe_default": x_maybe_default, "filter": x_filter_items, "min": x_min_valid},
+    defaults={"k": "None"},
     raises={"ValueError": "True"},
     ensures=[
         "result[0] in self.costs and result[1] == self.costs[result[0]]",
@@ -315,3 +315,42 @@ def _gen_best(rng):
 
 
 best.gen = _gen_best
+
+
+
+# ----------------------------------------------------------- SliceFinder.search
+def x_trial(engine, st, args, node, kw):
+    """self.trial(...): explores and caches more slicings - the cache may grow or change arbitrarily"""
+    selfref = args[0]
+    ob = engine.deref(st, selfref)
+    cref = ob.fields["costs"]
+    cur = engine.deref(st, cref)
+    st.heap[cref.id] = Ty.havoc(cur.t, f"costs@{engine.line(node)}")
+    return Ty.mk_none()
+
+
+search = Contract(
+    target="cotengra.slicer:SliceFinder.search",
+    props=["C07"],
+    self_type=FinderT,
+    params={"max_repeats": Ty.Int, "temperature": Ty.NoneT, "target_size": Ty.Opt(Ty.Int), "target_overhead": Ty.Opt(Ty.Real), "target_slices": Ty.Opt(Ty.Int)},
+    returns=ItemT,
+    externals={"SliceFinder.trial": x_trial},
+    modifies=["self.costs"],
+    raises={"ValueError": "True"},
+    nloops=1,
+    loops={0: Loop(pos="t", inv=[])},
+    ensures=list(best.ensures),
+    assumptions=["trial() only changes the cache of slicings (whatever it caches is covered by the ContractionCosts contracts); RuntimeError from trial() propagates (not modelled)"],
+)
+CONTRACTS.append(search)
+
+
+def _gen_search(rng):
+    case = _gen_best(rng)
+    a = case["args"]
+    return {"self": case["self"], "args": (rng.randint(0, 3), None, a[1], a[2], a[3]), "describe": case["describe"].replace(" best", " search")}
+
+
+search.gen = _gen_search
+search.raises["RuntimeError"] = "True"
